@@ -494,3 +494,407 @@ Proof.
   destruct (decode_u64 r1) as [[n r2]|]; [|discriminate].
   destruct (len r2 =? n); [|discriminate]. apply of_bytes_valid.
 Qed.
+
+(* ====================================================================================== *)
+(* Round 2                                                                                 *)
+(* ====================================================================================== *)
+From V.gen Require PeerIdSites.
+From V.common Require Import Wire.
+
+(* the model's table of derivation sites is the one extracted from the Rust source *)
+Lemma sites_match : derivation_sites = PeerIdSites.sites.
+Proof. reflexivity. Qed.
+
+(* ---------- one derivation ---------- *)
+Lemma from_public_key_is_derive H k : from_public_key H k = derive H (key_encoding (KEd k)).
+Proof. reflexivity. Qed.
+
+Lemma remote_is_derive H k : remote_to_peer_id H k = derive H (key_encoding k).
+Proof. destruct k; reflexivity. Qed.
+
+Lemma all_entry_points_agree H k :
+  from_impl H k = from_public_key H k /\
+  publickey_to_peer_id H k = from_public_key H k /\
+  ed25519_to_peer_id H k = from_public_key H k /\
+  remote_to_peer_id H (KEd k) = from_public_key H k /\
+  local_peer_id H k = from_public_key H k /\
+  identify_local_peer_id H k = from_public_key H k.
+Proof. repeat split; reflexivity. Qed.
+
+Lemma handshakes_agree dec H identity verified :
+  noise_identity dec H identity verified = tls_identity dec H identity verified.
+Proof. reflexivity. Qed.
+
+Lemma noise_identity_spec dec H identity k :
+  dec identity = Some k ->
+  noise_identity dec H identity true = Some (derive H (key_encoding k)) /\
+  noise_identity dec H identity false = None.
+Proof.
+  intros E. unfold noise_identity. rewrite E, remote_is_derive. split; reflexivity.
+Qed.
+
+Lemma noise_identity_none dec H identity v : dec identity = None -> noise_identity dec H identity v = None.
+Proof. intros E. unfold noise_identity. rewrite E. reflexivity. Qed.
+
+(* the id depends on the decoded key only, not on the bytes it was decoded from *)
+Lemma identity_encoding_irrelevant dec H b1 b2 v :
+  dec b1 = dec b2 -> noise_identity dec H b1 v = noise_identity dec H b2 v.
+Proof. intros E. unfold noise_identity. rewrite E. reflexivity. Qed.
+
+Lemma ed25519_id H k : length k = 32%nat -> from_public_key H k = mkPid 0 (encode_ed25519 k).
+Proof.
+  intros L. unfold from_public_key, derive. apply of_key_enc_inline.
+  rewrite (encode_ed25519_len _ L). lia.
+Qed.
+
+(* RSA *)
+Lemma der_len_nonempty n : (1 <= length (der_len n))%nat.
+Proof. unfold der_len. destruct (n <? 128); cbn [length]; lia. Qed.
+
+Lemma len_der_ge t c : 2 + len c <= len (der t c).
+Proof.
+  unfold der, len. cbn [length]. rewrite app_length. pose proof (der_len_nonempty (N.of_nat (length c))). lia.
+Qed.
+
+Lemma rsa_encoding_long pk : 24 + len pk <= len (key_encoding (KRsa pk)).
+Proof.
+  cbn [key_encoding]. rewrite !len_app.
+  assert (1 <= len (encode (len (spki pk)))).
+  { destruct (encode_spec (len (spki pk))) as (W & _). pose proof (wf_nonempty _ W) as NE.
+    destruct (encode (len (spki pk))) as [|x e]; [congruence|]. unfold len. cbn [length]. lia. }
+  assert (20 + len pk <= len (spki pk)).
+  { unfold spki. pose proof (len_der_ge 48 (der 48 (RSA_OID ++ [5; 0]) ++ der 3 (0 :: pk))) as H1.
+    rewrite len_app in H1.
+    pose proof (len_der_ge 48 (RSA_OID ++ [5; 0])) as H2.
+    pose proof (len_der_ge 3 (0 :: pk)) as H3.
+    assert (len (RSA_OID ++ [5; 0]) = 13) by reflexivity.
+    assert (len (0 :: pk) = 1 + len pk) by (unfold len; cbn [length]; lia). lia. }
+  change (len [8; 0; 18]) with 3. lia.
+Qed.
+
+Lemma rsa_id H pk : 19 <= len pk ->
+  remote_to_peer_id H (KRsa pk) = mkPid 18 (H (key_encoding (KRsa pk))).
+Proof.
+  intros L. cbn [remote_to_peer_id]. unfold derive. apply of_key_enc_hashed.
+  pose proof (rsa_encoding_long pk). lia.
+Qed.
+
+(* is_public_key *)
+Lemma nlist_eqb_eq a : forall b, list_eqb N.eqb a b = true <-> a = b.
+Proof.
+  induction a as [|x a IH]; intros [|y b]; cbn [list_eqb]; try (split; [discriminate|discriminate]); [tauto|].
+  rewrite andb_true_iff, IH, N.eqb_eq. split; [intros [-> ->]; reflexivity | intros [= -> ->]; auto].
+Qed.
+
+Lemma pid_eqb_eq a b : pid_eqb a b = true <-> a = b.
+Proof.
+  unfold pid_eqb. rewrite andb_true_iff, N.eqb_eq, nlist_eqb_eq.
+  destruct a as [ca da], b as [cb db]; cbn. split; [intros [-> ->]; reflexivity | intros [= -> ->]; auto].
+Qed.
+
+Lemma is_public_key_own H k :
+  length k = 32%nat -> is_public_key H (from_public_key H k) k = Some true.
+Proof.
+  intros L. rewrite (ed25519_id H k L). unfold is_public_key. cbn [code].
+  destruct consts_facts as (_ & -> & _ & ->).
+  change (0 =? 18) with false. change (0 =? 0) with true. cbv iota.
+  f_equal. apply pid_eqb_eq. reflexivity.
+Qed.
+
+Lemma is_public_key_true H p k :
+  is_public_key H p k = Some true <->
+  p = mkPid 0 (encode_ed25519 k) \/ p = mkPid 18 (H (encode_ed25519 k)).
+Proof.
+  unfold is_public_key. destruct consts_facts as (_ & -> & _ & ->). split.
+  - destruct (N.eqb_spec (code p) 18) as [E|NE].
+    + intros [= E2]. right. symmetry. apply pid_eqb_eq. exact E2.
+    + destruct (N.eqb_spec (code p) 0) as [E0|NE0]; [|discriminate].
+      intros [= E2]. left. symmetry. apply pid_eqb_eq. exact E2.
+  - intros [-> | ->]; cbn [code].
+    + change (0 =? 18) with false. change (0 =? 0) with true. cbv iota. f_equal. apply pid_eqb_eq. reflexivity.
+    + change (18 =? 18) with true. cbv iota. f_equal. apply pid_eqb_eq. reflexivity.
+Qed.
+
+Lemma random_valid r : length r = 32%nat -> bytes_ok r = true -> valid (random_pid r) = true.
+Proof.
+  intros L B. unfold random_pid, valid, admits. cbn [code digest].
+  destruct consts_facts as (-> & -> & -> & ->). rewrite B.
+  change (0 =? 18) with false. change (0 =? 0) with true. unfold len. rewrite L. reflexivity.
+Qed.
+
+(* ---------- Eq / Ord ---------- *)
+Lemma to_bytes_injective p q : valid p = true -> valid q = true -> to_bytes p = to_bytes q -> p = q.
+Proof.
+  intros Vp Vq E. pose proof (of_bytes_to_bytes _ Vp) as Hp. rewrite E, (of_bytes_to_bytes _ Vq) in Hp.
+  congruence.
+Qed.
+
+Lemma to_text_injective p q : valid p = true -> valid q = true -> to_text p = to_text q -> p = q.
+Proof.
+  intros Vp Vq E. pose proof (of_text_to_text _ Vp) as Hp. rewrite E, (of_text_to_text _ Vq) in Hp.
+  congruence.
+Qed.
+
+Lemma to_component_injective p q :
+  valid p = true -> valid q = true -> to_component p = to_component q -> p = q.
+Proof.
+  intros Vp Vq E. pose proof (of_component_to_component _ Vp) as Hp.
+  rewrite E, (of_component_to_component _ Vq) in Hp. congruence.
+Qed.
+
+Lemma valid_code p : valid p = true -> code p = 0 \/ code p = 18.
+Proof.
+  intros V. destruct (valid_inv _ V) as (A & _). unfold admits in A.
+  destruct consts_facts as (_ & E0 & _ & E18). rewrite E0, E18 in A.
+  destruct (N.eqb_spec (code p) 18); [tauto|].
+  destruct (N.eqb_spec (code p) 0); [tauto|]. cbn in A. discriminate.
+Qed.
+
+Lemma to_bytes_shape p : valid p = true -> to_bytes p = code p :: len (digest p) :: digest p.
+Proof.
+  intros V. destruct (valid_inv _ V) as (_ & _ & L & _).
+  unfold to_bytes, mh_to_bytes.
+  rewrite (encode_small (code p)) by (destruct (valid_code _ V) as [-> | ->]; lia).
+  rewrite (encode_small (len (digest p))) by lia. reflexivity.
+Qed.
+
+Lemma list_cmp_app_same z : forall a b, length a = length b ->
+  list_cmp (a ++ z) (b ++ z) = list_cmp a b.
+Proof.
+  assert (R : list_cmp z z = Eq).
+  { induction z as [|x z IH]; [reflexivity|]. cbn [list_cmp]. rewrite N.compare_refl. exact IH. }
+  induction a as [|x a IH]; intros [|y b] L; cbn [length] in L; try discriminate.
+  - cbn [app list_cmp]. exact R.
+  - cbn [app list_cmp]. destruct (x ?= y); [apply IH; lia|reflexivity|reflexivity].
+Qed.
+
+Lemma cmp_is_bytes_order p q :
+  valid p = true -> valid q = true -> pid_cmp p q = list_cmp (to_bytes p) (to_bytes q).
+Proof.
+  intros Vp Vq. rewrite (to_bytes_shape _ Vp), (to_bytes_shape _ Vq).
+  unfold pid_cmp. cbn [list_cmp]. destruct (code p ?= code q); [|reflexivity|reflexivity].
+  destruct (len (digest p) ?= len (digest q)) eqn:E; [|reflexivity|reflexivity].
+  apply N.compare_eq in E. unfold len in E. apply Nat2N.inj in E.
+  unfold pad64. rewrite E. apply list_cmp_app_same. exact E.
+Qed.
+
+Lemma list_cmp_eq a : forall b, list_cmp a b = Eq <-> a = b.
+Proof.
+  induction a as [|x a IH]; intros [|y b]; cbn [list_cmp]; try (split; discriminate); [tauto|].
+  destruct (x ?= y) eqn:E.
+  - apply N.compare_eq in E. subst y. rewrite IH. split; [intros ->; reflexivity|intros [= ->]; reflexivity].
+  - split; [discriminate|]. intros [= -> _]. rewrite N.compare_refl in E. discriminate.
+  - split; [discriminate|]. intros [= -> _]. rewrite N.compare_refl in E. discriminate.
+Qed.
+
+Lemma cmp_eq_iff p q : valid p = true -> valid q = true -> (pid_cmp p q = Eq <-> p = q).
+Proof.
+  intros Vp Vq. rewrite (cmp_is_bytes_order _ _ Vp Vq), list_cmp_eq. split.
+  - apply to_bytes_injective; assumption.
+  - intros ->. reflexivity.
+Qed.
+
+(* ---------- serde ---------- *)
+Lemma chr_in_alphabet d : d < 58 -> In (chr d) alphabet.
+Proof.
+  intros H. unfold chr. apply nth_In. change (length alphabet) with 58%nat. lia.
+Qed.
+
+Lemma b58_encode_chars b c : In c (b58_encode b) -> In c alphabet.
+Proof.
+  unfold b58_encode. intros I. apply in_map_iff in I as (d & <- & Id).
+  apply chr_in_alphabet.
+  pose proof (rebase_digits 256 58 ltac:(lia) ltac:(lia) b) as F.
+  rewrite Forall_forall in F. exact (F _ Id).
+Qed.
+
+Lemma alphabet_plain c : In c alphabet -> json_plain c = true /\ c <> SLASH.
+Proof.
+  assert (A : forallb (fun c => json_plain c && negb (c =? SLASH)) alphabet = true) by (vm_compute; reflexivity).
+  rewrite forallb_forall in A. intros I. specialize (A _ I).
+  apply andb_prop in A as [A1 A2]. split; [exact A1|]. intros ->. vm_compute in A2. discriminate.
+Qed.
+
+Lemma to_text_plain p : forallb json_plain (to_text p) = true.
+Proof.
+  apply forallb_forall. intros c I. apply alphabet_plain. exact (b58_encode_chars _ _ I).
+Qed.
+
+Lemma to_text_no_slash p : ~ In SLASH (to_text p).
+Proof.
+  intros I. apply b58_encode_chars in I. apply alphabet_plain in I. destruct I as [_ N]. congruence.
+Qed.
+
+Lemma of_json_json_of p : valid p = true -> of_json (json_of p) = Some p.
+Proof.
+  intros V. unfold of_json, json_of, ser_hr, de_hr, QUOTE.
+  rewrite rev_app_distr. cbn [rev app]. rewrite rev_involutive, to_text_plain.
+  apply of_text_to_text. exact V.
+Qed.
+
+(* ---------- textual multiaddress ---------- *)
+Lemma split_on_nosep sep l : ~ In sep l -> split_on sep l = [l].
+Proof.
+  induction l as [|c t IH]; intros NI; [reflexivity|].
+  cbn [split_on]. rewrite IH by (intros I; apply NI; right; exact I).
+  destruct (N.eqb_spec c sep) as [->|NE]; [exfalso; apply NI; left; reflexivity|reflexivity].
+Qed.
+
+Lemma split_on_nonempty sep l : split_on sep l <> [].
+Proof.
+  induction l as [|c t IH]; cbn [split_on]; [discriminate|].
+  destruct (split_on sep t); [discriminate|]. destruct (c =? sep); discriminate.
+Qed.
+
+Lemma split_on_app sep a b : ~ In sep a -> split_on sep (a ++ sep :: b) = a :: split_on sep b.
+Proof.
+  induction a as [|c t IH]; intros NI.
+  - cbn [app split_on]. pose proof (split_on_nonempty sep b).
+    destruct (split_on sep b) as [|cur rest]; [congruence|]. rewrite N.eqb_refl. reflexivity.
+  - cbn [app split_on]. rewrite IH by (intros I; apply NI; right; exact I).
+    destruct (N.eqb_spec c sep) as [->|NE]; [exfalso; apply NI; left; reflexivity|reflexivity].
+Qed.
+
+Lemma split_single_component name s :
+  ~ In SLASH name -> ~ In SLASH s ->
+  split_on SLASH (SLASH :: name ++ SLASH :: s) = [[]; name; s].
+Proof.
+  intros N1 N2. change (SLASH :: name ++ SLASH :: s) with ([] ++ SLASH :: (name ++ SLASH :: s)).
+  rewrite split_on_app by (intros []). rewrite split_on_app by exact N1.
+  rewrite split_on_nosep by exact N2. reflexivity.
+Qed.
+
+Lemma name_p2p_noslash : ~ In SLASH NAME_P2P.
+Proof. vm_compute. intuition discriminate. Qed.
+Lemma name_ipfs_noslash : ~ In SLASH NAME_IPFS.
+Proof. vm_compute. intuition discriminate. Qed.
+
+Lemma of_addr_text_single name s :
+  (name = NAME_P2P \/ name = NAME_IPFS) -> ~ In SLASH s ->
+  of_addr_text (SLASH :: name ++ SLASH :: s) = of_text s.
+Proof.
+  intros Hn NS. unfold of_addr_text.
+  rewrite split_single_component; [|destruct Hn as [-> | ->]; [apply name_p2p_noslash|apply name_ipfs_noslash]|exact NS].
+  cbn [parse_parts].
+  replace (list_eqb N.eqb name NAME_P2P || list_eqb N.eqb name NAME_IPFS) with true
+    by (destruct Hn as [-> | ->]; reflexivity).
+  destruct (of_text s) as [p|]; reflexivity.
+Qed.
+
+Lemma of_addr_text_to_addr_text p : valid p = true -> of_addr_text (to_addr_text p) = Some p.
+Proof.
+  intros V. unfold to_addr_text.
+  rewrite of_addr_text_single by (auto using to_text_no_slash). apply of_text_to_text. exact V.
+Qed.
+
+Lemma of_addr_text_ipfs_alias p :
+  valid p = true -> of_addr_text (SLASH :: NAME_IPFS ++ SLASH :: to_text p) = Some p.
+Proof.
+  intros V. rewrite of_addr_text_single by (auto using to_text_no_slash). apply of_text_to_text. exact V.
+Qed.
+
+(* every peer id that comes out of the textual parser is valid *)
+Definition proto_valid (x : proto) : Prop := match x with PP2p p => valid p = true | PCircuit => True end.
+
+Lemma parse_parts_valid n : forall parts ps, (length parts <= n)%nat ->
+  parse_parts parts = Some ps -> Forall proto_valid ps.
+Proof.
+  induction n as [|n IH]; intros parts ps L.
+  - destruct parts; [|cbn [length] in L; lia]. cbn [parse_parts]. intros [= <-]. constructor.
+  - destruct parts as [|name rest]; [cbn [parse_parts]; intros [= <-]; constructor|].
+    cbn [parse_parts]. cbn [length] in L.
+    destruct (list_eqb N.eqb name NAME_P2P || list_eqb N.eqb name NAME_IPFS).
+    + destruct rest as [|arg rest']; [discriminate|].
+      destruct (of_text arg) as [p|] eqn:T; [|discriminate].
+      destruct (parse_parts rest') as [ps'|] eqn:P; [|discriminate]. intros [= <-].
+      constructor; [exact (of_text_valid _ _ T)|].
+      apply (IH rest'); [cbn [length] in L; lia|exact P].
+    + destruct (list_eqb N.eqb name NAME_CIRCUIT); [|discriminate].
+      destruct (parse_parts rest) as [ps'|] eqn:P; [|discriminate]. intros [= <-].
+      constructor; [exact I|]. apply (IH rest); [lia|exact P].
+Qed.
+
+Lemma last_in (A : Type) (l : list A) (d : A) : l <> [] -> In (last l d) l.
+Proof.
+  induction l as [|x t IH]; [congruence|]. intros _. destruct t as [|y t'].
+  - left. reflexivity.
+  - right. change (last (x :: y :: t') d) with (last (y :: t') d). apply IH. discriminate.
+Qed.
+
+Lemma of_addr_text_valid t p : of_addr_text t = Some p -> valid p = true.
+Proof.
+  unfold of_addr_text. destruct (split_on SLASH t) as [|[|] parts]; try discriminate.
+  destruct (parse_parts parts) as [ps|] eqn:P; [|discriminate].
+  pose proof (parse_parts_valid _ _ _ (le_n _) P) as F.
+  destruct (last ps PCircuit) as [q|] eqn:E; [|discriminate]. intros [= <-].
+  assert (NE : ps <> []) by (intros ->; cbn in E; discriminate).
+  rewrite Forall_forall in F. specialize (F _ (last_in _ ps PCircuit NE)).
+  rewrite E in F. exact F.
+Qed.
+
+Lemma of_addr_text_canonical s p :
+  ~ In SLASH s -> of_addr_text (SLASH :: NAME_P2P ++ SLASH :: s) = Some p ->
+  (forall b, b58_decode s = Some b -> (length b <= length (digest p) + 10)%nat) ->
+  SLASH :: NAME_P2P ++ SLASH :: s = to_addr_text p.
+Proof.
+  intros NS H L. rewrite of_addr_text_single in H by auto.
+  unfold to_addr_text. rewrite (of_text_canonical _ _ H L). reflexivity.
+Qed.
+
+(* ---------- packaged statements ---------- *)
+Lemma single_derivation (H : hash) (dec : decoder) :
+  (forall k,
+     from_impl H k = from_public_key H k /\ publickey_to_peer_id H k = from_public_key H k /\
+     ed25519_to_peer_id H k = from_public_key H k /\ local_peer_id H k = from_public_key H k /\
+     identify_local_peer_id H k = from_public_key H k /\
+     from_public_key H k = derive H (key_encoding (KEd k))) /\
+  (forall k, remote_to_peer_id H k = derive H (key_encoding k)) /\
+  (forall identity verified,
+     tls_identity dec H identity verified = noise_identity dec H identity verified) /\
+  (forall identity k, dec identity = Some k ->
+     noise_identity dec H identity true = Some (derive H (key_encoding k)) /\
+     noise_identity dec H identity false = None) /\
+  (forall identity v, dec identity = None -> noise_identity dec H identity v = None).
+Proof.
+  split; [intros k; repeat split; reflexivity|].
+  split; [apply remote_is_derive|].
+  split; [reflexivity|].
+  split; [intros identity k E; apply noise_identity_spec; exact E|].
+  intros identity v E. apply noise_identity_none. exact E.
+Qed.
+
+Lemma eq_iff_renderings p q : valid p = true -> valid q = true ->
+  (p = q <-> to_bytes p = to_bytes q) /\ (p = q <-> to_text p = to_text q) /\
+  (p = q <-> to_component p = to_component q) /\
+  (pid_eqb p q = true <-> p = q) /\ (pid_cmp p q = Eq <-> p = q).
+Proof.
+  intros Vp Vq. repeat split; try (intros ->; reflexivity).
+  - apply to_bytes_injective; assumption.
+  - apply to_text_injective; assumption.
+  - apply to_component_injective; assumption.
+  - apply pid_eqb_eq.
+  - apply pid_eqb_eq.
+  - apply cmp_eq_iff; assumption.
+  - apply cmp_eq_iff; assumption.
+Qed.
+
+Lemma serde_roundtrip p : valid p = true ->
+  de_hr (ser_hr p) = Some p /\ de_bin (ser_bin p) = Some p /\ of_json (json_of p) = Some p.
+Proof.
+  intros V. split; [exact (of_text_to_text _ V)|]. split; [exact (of_bytes_to_bytes _ V)|].
+  exact (of_json_json_of _ V).
+Qed.
+
+Lemma serde_sound :
+  (forall t p, de_hr t = Some p -> valid p = true) /\ (forall b p, de_bin b = Some p -> valid p = true).
+Proof. split; [exact of_text_valid | exact of_bytes_valid]. Qed.
+
+Lemma addr_text_roundtrip p : valid p = true ->
+  of_addr_text (to_addr_text p) = Some p /\
+  of_addr_text (SLASH :: NAME_IPFS ++ SLASH :: to_text p) = Some p.
+Proof. intros V. split; [exact (of_addr_text_to_addr_text _ V) | exact (of_addr_text_ipfs_alias _ V)]. Qed.
+
+Lemma text_alphabet p c : In c (to_text p) -> In c alphabet /\ json_plain c = true /\ c <> SLASH.
+Proof.
+  intros I. pose proof (b58_encode_chars _ _ I) as A. split; [exact A|]. exact (alphabet_plain _ A).
+Qed.
